@@ -1,7 +1,7 @@
 from harness import evprops, hcommon, hprop_run, sysprops
 
 PROP = "C02"
-EXTRA_PROPS = ("C02u", "C02a", "C02c") if PROP == "C02" else ()     # unbounded: unacknowledged transfer over a perfect link, any file
+EXTRA_PROPS = ("C02u", "C02a", "C02c", "C02d") if PROP == "C02" else ()     # unbounded: unacknowledged transfer over a perfect link, any file
 RULES = {
  "C02": "fault-free link: modes x closure x checksum types x sizes 0..13 x random CRC flag / id widths / seq widths / segment length / "
         "max packet length / NAK mode x destination as file / directory / existing file x pacing (0-3 extra empty calls per round), "
